@@ -1,10 +1,14 @@
 (** C06 — UPDATE round trip, IPv4 unicast + the twelve standard attributes.
 
     Models: model/YPrefix4.v, YAttr.v, YUpdate.v (what yabgp/message/update.py and
-    yabgp/message/attribute/*.py do AFTER the four proposed fix: patches build/proposed/c06-*.diff:
-    /0 prefix stray octet, withdrawals dropped next to attributes, signed large-community decode,
-    well-known community names with a lower-case letter).  With these repaired the property holds on
-    the whole stated domain, so there is no refuted part and no guard.
+    yabgp/message/attribute/*.py do with the fix: commits applied (C06's four: /0 prefix stray octet,
+    withdrawals dropped next to attributes, signed large-community decode, well-known community names
+    with a lower-case letter; and from other properties: ASPath.construct rejects a segment type
+    outside 1..4, LargeCommunity.construct rejects an empty or non-12-multiple value).  The property
+    holds on the whole stated domain except the one guarded class below
+    (C06_nlri_without_attributes_refuted).  In-range now means: AS_PATH segment types 1..4, a
+    LARGE_COMMUNITY attribute, when present, carries at least one community (both are what the
+    constructors accept; anything else is a construction error, not a mis-encoding).
     Communities are compared in the decoder's text form, modelled as tagged values (see YAttr.v). *)
 From YV Require Import lib.Base gen.Consts model.YMsg model.YPrefix4 model.YAttr model.YUpdate
   proof.UpdateProofsPrefix proof.UpdateProofsAttr proof.UpdateProofs.
@@ -105,7 +109,7 @@ Theorem C06_extcommunity_roundtrip : forall l, Forall wf_ext l -> l <> [] -> (le
 Proof. exact extcommunity_roundtrip. Qed.
 Print Assumptions C06_extcommunity_roundtrip.
 
-Theorem C06_largecommunity_roundtrip : forall l, Forall wf_large l -> len (enc_large l) <= 255 ->
+Theorem C06_largecommunity_roundtrip : forall l, Forall wf_large l -> l <> [] -> len (enc_large l) <= 255 ->
   construct_largecommunity l = Ok (frame c_ATTR_LargeCommunity_FLAG c_ATTR_LargeCommunity_ID (enc_large l)) /\
   parse_largecommunity (enc_large l) = Ok (VLarge l).
 Proof. exact largecommunity_roundtrip. Qed.
@@ -210,7 +214,7 @@ Proof.
     - right. split; [auto 6 | reflexivity].
     - split; [reflexivity|]. split; [|cbn; lia]. forall_list closed_arith.
     - split; [reflexivity|]. split; [|split; [discriminate | cbn; lia]]. forall_list closed_arith.
-    - split; [reflexivity|]. split; [|cbn; lia].
+    - split; [reflexivity|]. split; [|split; [discriminate | cbn; lia]].
       forall_list ltac:(split; [reflexivity|]; forall_list closed_arith). }
   split.
   { cbn [map fst]. repeat constructor; cbn [In]; intros H;
